@@ -158,6 +158,7 @@ def run(ctx):
             lambda: loops.signal_loop(N, 1, "chat"),
             lambda: loops.nested_loop(N, 0, 1, "route", 1),
             lambda: loops.two_acc_loop(N, 0),
+            lambda: loops.lagged_signal_loop(N, N % 3),
         ):
             if ctx.shard[0] != sysn % ctx.shard[1]:
                 sysn += 1
